@@ -9,7 +9,7 @@ ASSUMPTIONS = [
 
 
 def run(ctx):
-    ctx, tb, dist = R.run_rt(ctx, "C01", 400, 15000, with_edits=False)
+    ctx, tb, dist = R.run_rt(ctx, "C01", 400, 6000, with_edits=False)
     return ctx.finish(tb, ASSUMPTIONS, "generated G_core problems (cells with CSG geometry, materials, surfaces of many mnemonics, data cards incl. data-block cell modifiers, shortcuts, comments, message block; 80 and 128 columns), read and written unedited; distinct = distinct input text", extra={"input_distribution": dist})
 
 
